@@ -146,6 +146,7 @@ func runC06(e *Env, r *core.Run) {
 		{"h2c", c06fH2C, c.famH2C},
 		{"merlin", c06fMerlin, c.famMerlin},
 		{"sr25519", c06fSr, c.famSr25519},
+		{"aliased-receivers", c06fAlias, c.famAliased},
 	}
 	// tape-drawn order (exhausted tape: a fixed order); ed25519 must precede its
 	// batch family only in the sense that the batch builds its own items if none exist.
